@@ -39,7 +39,7 @@ type Harness struct {
 	Undisch     map[string]int
 	BoundCuts   map[string]int
 	Viol        []*Violation
-	violKeys    map[string]bool
+	violKeys    map[string]int // counterexamples kept per (kind, label, function): up to 4, each replayed natively
 	Covers      map[string]*Witness
 	Inconc      map[string]int
 	FnSteps     map[string]int64
@@ -309,7 +309,7 @@ func (eng *Engine) Load(cfg LoadConfig) error {
 				continue
 			}
 			eng.harnesses = append(eng.harnesses, &Harness{Name: name, Pkg: p.PkgPath, Prop: cfg.Prop, fn: sp.Func(name),
-				Paths: map[string]int{}, Undisch: map[string]int{}, BoundCuts: map[string]int{}, violKeys: map[string]bool{},
+				Paths: map[string]int{}, Undisch: map[string]int{}, BoundCuts: map[string]int{}, violKeys: map[string]int{},
 				Covers: map[string]*Witness{}, Inconc: map[string]int{}, FnSteps: map[string]int64{}, Stubs: map[string]int{}, Asserts: map[string]int{}, EndMsgs: map[string]int{}})
 		}
 	}
@@ -480,8 +480,8 @@ func (eng *Engine) Explore() {
 				}
 				for _, v := range res.Viol {
 					k := violKey(v)
-					if !h.violKeys[k] {
-						h.violKeys[k] = true
+					if h.violKeys[k] < 4 {
+						h.violKeys[k]++
 						h.Viol = append(h.Viol, v)
 					}
 				}
